@@ -4,6 +4,7 @@ import os
 import tempfile
 
 from .. import common as C
+from .. import impl
 from ..engine import Relation
 
 REQ = ['Text.Ties', 'Corr.C13Corr']
@@ -196,14 +197,10 @@ class FileRoundTrip(Relation):
             else:
                 text = Generator_spa().create_instance(n, n, n, first, first_t, ident, [0] * n, [1] * n,
                                                        second, second_t, [0] * n, [1] * n, [1] * n, 'info\n')
-            fd, path = tempfile.mkstemp(suffix='.txt', dir=os.environ.get('VERIF_WORK'))
-            try:
-                with os.fdopen(fd, 'w') as fh:
-                    fh.write(text)
-                m = fileIO.import_model(path, {Instance_options.NUMAGENTS: inp['agents'],
-                                               Instance_options.TWOPL: True, Instance_options.PC: False})
-            finally:
-                os.unlink(path)
+            # one scratch path per process, regenerated in place for every case (as a generate-and-solve loop does)
+            from matchingproblems.solver.solver import Solver
+            with impl.tmpfile(text) as path:
+                m = Solver(['-f', path, '-na', str(inp['agents']), '-twopl']).model
             if inp['side'] == 1:
                 return [[p.projectID, p.rank_student] for p in m.pairs[0]]
             # second side: lecturer 1's ranks of the students in list order
